@@ -22,7 +22,11 @@ mux      MultiReader.tla (M: slab keys, flag buckets, local / queue flags, curre
 routing  Remote.tla part 2 (M = registration queues and tables, per-source FIFOs, multiplexer,
          router, agent resolution, not-found replies, termination by an invalid frame) is model
          checked (B3: RouteExact, RequestExact, InvalidNeverDelivered, OnlyAddressee, TablesSound,
-         NothingStranded; thorough: liveness AllLeave / AllRouted under fairness).  TLC simulation
+         NothingStranded; thorough: liveness AllLeave / AllRouted under fairness).  The settled
+         routing-table graph (MC_Remote: Settled + TblView - entry absent / one lane / two lanes /
+         stale writer / lane emptied / node emptied, several downlinks per lane, sibling lanes,
+         two nodes, never-registered lanes) is dumped and every one of its transitions is covered
+         by a script with a settle point after each move of the environment.  TLC simulation
          of the same specification generates attach / one-way attach / write / detach / agent /
          peer scripts, concretised with node / lane / body strings from the pools (any class);
          they run on a real swimos_remote::RemoteTask over a ratchet web socket on
@@ -435,6 +439,55 @@ def rt_b3_configs(tier):
             ("out_live", dict(outc, MaxSend=2), True), ("inc_live", dict(inc1, MaxPeer=2, Dls=R('{1,2}')), True)]
 
 
+def tbl_configs(tier):
+    """settled exploration of the routing tables (MC_Remote: Settled, TblView): every table update is a transition."""
+    d = dict(Nodes=R('{"n1","n2"}'), Lanes=R('{"l1","l2"}'), Exists=R('{}'), Dls=R('{1,2,3,4}'), Bodies=R('{}'), MaxInst=1,
+             ServerMode=False, MaxSend=0, MaxPeer=0, MCKinds=R('{"event"}'), PathSel="D", OneWay=R('{}'))
+    if tier == "quick":
+        return [("D", d)]
+    return [("D", dict(d, MCKinds=R('{"event","unlinked","synced"}'))), ("C", dict(d, PathSel="C")), ("A", dict(d, PathSel="A")),
+            ("B", dict(d, PathSel="B"))]
+
+
+def table_scenarios(script):
+    """which routing-table situations an abstract script puts the incoming half in (counted per script):
+    late = an envelope addressed to a lane all of whose downlinks have detached (the first one finds the dead writers and
+    empties the entry) while a downlink on a SIBLING lane of the same node is attached; late_then_sibling = ... and a
+    later envelope is addressed to that sibling lane while it is still attached; unregistered = an envelope for a
+    (node, lane) nobody ever registered for."""
+    path, state, ever, stale = {}, {}, set(), set()
+    late = late_sib = unreg = False
+    watch = set()           # sibling (node, lane) pairs that must still be served after a late envelope
+    for a in script:
+        k = a["k"]
+        if k == "attach_req":
+            path[a["d"]] = (a["node"], a["lane"]); state[a["d"]] = "att"; ever.add(path[a["d"]])
+        elif k == "dl_detach" and a["d"] in path:
+            state[a["d"]] = "det"; stale.add(path[a["d"]])
+        elif k == "peer_send" and a["msg"]["kind"] in KINDS_RESP:
+            p_ = (a["msg"]["node"], a["msg"]["lane"])
+            live = {path[d] for d in path if state[d] == "att"}
+            if p_ not in ever:
+                unreg = True
+            if p_ in watch and p_ in live:
+                late_sib = True
+            if p_ in stale and p_ not in live:
+                sibs = {q for q in live if q[0] == p_[0] and q[1] != p_[1]}
+                if sibs:
+                    late = True
+                    watch |= sibs
+                stale.discard(p_)
+    return {"late": late, "late_then_sibling": late_sib, "unregistered": unreg}
+
+
+def decorate_bodies(script, rng):
+    """the settled table exploration uses empty bodies; give the envelopes bodies (P compares them)."""
+    for a in script:
+        if a["k"] == "peer_send" and a["msg"].get("kind") in HAS_BODY:
+            a["msg"] = dict(a["msg"], body=rng.choice(["", "b1", "b2"]))
+    return script
+
+
 SIM_SERVER = dict(Nodes=R('{"n1","n2","n3"}'), Lanes=R('{"l1","l2"}'), Exists=R('{"n1","n2"}'), Dls=R('{1,2,3,4}'), OneWay=R('{4}'),
                   Bodies=R('{"b1","b2"}'), MaxInst=2, ServerMode=True, MaxSend=12, MaxPeer=12,
                   MCKinds=R('{"link","sync","unlink","command","linked","synced","unlinked","event","invalid","auth"}'), PathSel="C")
@@ -481,7 +534,11 @@ def abstract_scripts(behaviours, rng, p_settle=0.25):
 
 
 INVALID_FRAMES = ["@foo(node:a,lane:b)", "not an envelope", "@event(node:a)", "@event(lane:b) 1", "@event(node:a,lane:b,extra:1)",
-                  "@command(a,b)", "", "@event(node:\"a\\q\",lane:b)", "{@event(node:a,lane:b)}", "@event(node:a,lane:b"]
+                  "@command(a,b)", "", "@event(node:\"a\\q\",lane:b)", "{@event(node:a,lane:b)}", "@event(node:a,lane:b",
+                  # well-formed Recon headers whose node / lane is not a text token (record, attributed value, number, blob)
+                  "@event(node:@a(1){x:1,y;z},lane:b) 1", "@event(node:{a:1,2;\"q r\":{}},lane:b)", "@event(node:a,lane:@\"q t\"(x:1) 5)",
+                  "@link(node:a,lane:@b@c{1}\n)", "@sync(node:7,lane:b)", "@event(node:%AAEC,lane:b)", "@event(node:@t \"s\",lane:b)",
+                  "@command(node:a,lane:b,rate:fast) 1", "@linked(node:a;lane:{};)"]
 AUTH_FRAMES = ["@auth", "@deauth", "@auth{key:1}", "@deauth()"]
 
 
@@ -522,6 +579,8 @@ def concretise(script, rng, extra_bodies=()):
                 a["text"] = rng.choice(INVALID_FRAMES)
             elif a["msg"]["kind"] == "auth":
                 a["text"] = rng.choice(AUTH_FRAMES)
+            elif a["k"] == "peer_send" and a["msg"]["kind"] in ("link", "sync", "linked") and rng.random() < 0.3:
+                a["slots"] = rng.choice([",rate:0.5,prio:1.0", ", prio: 3", ";rate:1e2", ",\n rate:0"])   # as other WARP writers spell it
             a["msg"] = cmsg(a["msg"])
         if "node" in a:
             a["node"] = nodes[a["node"]]
@@ -612,6 +671,12 @@ def routing_jobs(tier, wd):
                          constraints=["Bound"], action_constraints=RT_AC)
             return core.run_tlc("MC_Remote", c, os.path.join(wd, "rt_b3_" + name), workers=1, timeout=1700)
         jobs.append((("rt_b3", name), b3))
+    for name, k in tbl_configs(tier):
+        def tbl(name=name, k=k):
+            c = core.cfg(constants=k, invariants=RT_INV + ["TblInitDump"], properties=["RoutingProps"], view="TblView",
+                         action_constraints=RT_AC + ["Settled", "TblEdgeDump"])
+            return core.run_tlc("MC_Remote", c, os.path.join(wd, "rt_tbl_" + name), workers=1, timeout=1700)
+        jobs.append((("rt_tbl", name), tbl))
     n_sim = 60 if tier == "quick" else 1000
     for name, k in (("server", SIM_SERVER), ("client", SIM_CLIENT)):
         def sim(name=name, k=k):
@@ -626,12 +691,15 @@ def routing_jobs(tier, wd):
 
 def routing_part(tier, out, wd, rng, stats, cov, res):
     st = dict(b3_states=0, b3_transitions=0, scripts=0, script_actions=0, events=0, accepted=0, rejected=0,
-              deliveries=0, wire_frames=0, finds=0, closed_runs=0)
+              deliveries=0, wire_frames=0, finds=0, closed_runs=0, tbl_states=0, tbl_transitions=0, tbl_scripts=0,
+              scripts_late_envelope_for_emptied_lane_with_live_sibling=0,
+              scripts_late_envelope_then_envelope_for_live_sibling=0, scripts_envelope_for_unregistered_lane=0)
     for (kind, name), r in sorted((k, v) for k, v in res.items() if k[0].startswith("rt_")):
         core.log("[C11]   tlc Remote %s %s: %d distinct states, %.1fs" % (kind, name, r.distinct, r.wall))
         must_ok(r, "Remote %s %s" % (kind, name))
-        if kind == "rt_b3":
+        if kind in ("rt_b3", "rt_tbl"):
             cov_merge(cov, r, "Remote")
+        if kind == "rt_b3":
             st["b3_states"] += r.distinct
             st["b3_transitions"] += max(r.generated - 1, 0)
     cases = []
@@ -645,6 +713,31 @@ def routing_part(tier, out, wd, rng, stats, cov, res):
                    "max_inst": 2, "buf": rng.choice([4096, 4096, 96, 40]), "duplex": rng.choice([1 << 16, 1 << 16, 300]),
                    "reg_buf": rng.choice([8, 8, 1])}
             cases.append({"id": "%s%d" % (name, j), "cfg": cfg, "acts": acts, "maps": maps, "abstract": s, "group": name})
+    # transition cover of the settled routing-table graph: a settle point after every move of the environment
+    for name, k in tbl_configs(tier):
+        r = res[("rt_tbl", name)]
+        g = core.Graph(r.tagged["EDGE"], init_views=r.tagged["INIT"])
+        st["tbl_states"] += r.distinct
+        st["tbl_transitions"] += g.n_edges
+        st["b3_states"] += r.distinct
+        st["b3_transitions"] += g.n_edges
+        paths = g.covering_paths(extend=4, rng=rng)
+        for j, s in enumerate(abstract_scripts(paths, rng, p_settle=1.0)):
+            s = decorate_bodies(s, rng)
+            acts, maps = concretise(s, rng)
+            cfg = {"server": False, "exists": [], "max_inst": 2, "buf": rng.choice([4096, 96, 40])}
+            cases.append({"id": "tbl%s%d" % (name, j), "cfg": cfg, "acts": acts, "maps": maps, "abstract": s, "group": "client"})
+            st["tbl_scripts"] += 1
+    # every malformed frame of the pool once, between two deliverable envelopes: nothing after it is delivered
+    for j, text in enumerate(INVALID_FRAMES):
+        s = [{"k": "attach_req", "d": 1, "node": "n1", "lane": "l1"}, {"k": "attach_done", "d": 1},
+             {"k": "peer_send", "msg": {"kind": "event", "node": "n1", "lane": "l1", "body": "b1"}}, {"k": "settle"},
+             {"k": "peer_send", "msg": {"kind": "invalid"}},
+             {"k": "peer_send", "msg": {"kind": "unlinked", "node": "n1", "lane": "l1", "body": "b2"}}]
+        acts, maps = concretise(s, rng)
+        acts[4]["text"] = text
+        cases.append({"id": "bad%d" % j, "cfg": {"server": False, "exists": [], "max_inst": 2, "buf": 4096}, "acts": acts,
+                      "maps": maps, "abstract": s, "group": "client"})
     # many sources on one socket
     wides = [(3, 3), (70, 2)] if tier == "quick" else [(3, 5), (70, 3), (130, 2)]
     for n_dl, per in wides:
@@ -652,6 +745,11 @@ def routing_part(tier, out, wd, rng, stats, cov, res):
         acts, maps = concretise(s, rng, wide_bodies(n_dl, per))
         cases.append({"id": "wide%d" % n_dl, "cfg": {"server": True, "exists": [], "max_inst": 2, "buf": 4096, "reg_buf": 8},
                       "acts": acts, "maps": maps, "abstract": s, "group": "wide%d" % n_dl, "n_dl": n_dl, "per": per})
+    for c in cases:
+        sc = table_scenarios(c["abstract"])
+        st["scripts_late_envelope_for_emptied_lane_with_live_sibling"] += sc["late"]
+        st["scripts_late_envelope_then_envelope_for_live_sibling"] += sc["late_then_sibling"]
+        st["scripts_envelope_for_unregistered_lane"] += sc["unregistered"]
     results = run_task_cases(cases, wd, "task")
     groups = {}
     for c, r in zip(cases, results):
@@ -696,6 +794,15 @@ def routing_part(tier, out, wd, rng, stats, cov, res):
         out.sample({"task_script": c0["acts"][:10], "cfg": c0["cfg"]})
         out.sample({"task_history_abstract": groups[c0["group"]][0][2][:14]})
     stats["routing"] = st
+    core.log("[C11] routing tables: settled graph %d states / %d transitions covered by %d scripts; of all %d scripts %d (%.0f%%) send a late "
+             "envelope to an emptied lane while a sibling lane of the node is live, %d (%.0f%%) then also an envelope to that sibling, "
+             "%d address a never-registered lane" % (
+                 st["tbl_states"], st["tbl_transitions"], st["tbl_scripts"], st["scripts"],
+                 st["scripts_late_envelope_for_emptied_lane_with_live_sibling"],
+                 100.0 * st["scripts_late_envelope_for_emptied_lane_with_live_sibling"] / max(1, st["scripts"]),
+                 st["scripts_late_envelope_then_envelope_for_live_sibling"],
+                 100.0 * st["scripts_late_envelope_then_envelope_for_live_sibling"] / max(1, st["scripts"]),
+                 st["scripts_envelope_for_unregistered_lane"]))
     core.log("[C11] routing: B3 %d states; %d scripts (%d actions) on the real RemoteTask: %d events validated, accepted=%d rejected=%d (%d deliveries, %d frames on the wire, %d agent resolutions, %d terminated by an invalid frame)" % (
         st["b3_states"], st["scripts"], st["script_actions"], st["events"], st["accepted"], st["rejected"], st["deliveries"],
         st["wire_frames"], st["finds"], st["closed_runs"]))
@@ -741,8 +848,9 @@ def run(tier, out):
             rule="pure: every abstract envelope of Remote.tla (TLC enumeration) concretised from the pools, real writer then real "
                  "reader; mux: every transition of MultiReader.tla's state graph (bucket size 64; 2-3 active sources alone, at the "
                  "bucket boundary with 65 sources, and 70 sources) replayed on the real MultiReader, all histories validated by "
-                 "Trace_MultiReader; routing: TLC-simulated behaviours of Remote.tla run as scripts on a real RemoteTask over a "
-                 "duplex web socket, histories validated by Trace_Remote",
+                 "Trace_MultiReader; routing: a transition cover of the settled routing-table graph of Remote.tla, TLC-simulated "
+                 "behaviours of Remote.tla, one script per malformed frame and wide scripts run on a real RemoteTask over a duplex "
+                 "web socket, histories validated by Trace_Remote",
             checker_cmd="tlc MC_Remote (pure: RoundTripLaw; routing: %s RoutingProps) + tlc MC_MultiReader (%s NoStarvation) + "
                         "h_remote remote + h_core multireader + tlc Trace_Remote + tlc Trace_MultiReader" % (
                             " ".join(RT_INV), " ".join(MR_INV)))
